@@ -157,7 +157,7 @@ TraceSpec == TraceInit /\ [][TraceNext]_tvars
 TraceAccepted ==
     LET d == TLCGet("stats").diameter IN
     IF d - 1 = Len(Rec)
-    THEN PrintT(<<"STATS", Len(Rec), TLCGet(1), TLCGet(2), TLCGet(3), TLCGet(4), TLCGet(5), TLCGet(6)>>)
+    THEN PrintT(<<"STATS", ToJson(<<Len(Rec), TLCGet(1), TLCGet(2), TLCGet(3), TLCGet(4), TLCGet(5), TLCGet(6)>>)>>)
     ELSE /\ PrintT(<<"STUCK", d, IF d <= Len(Rec) THEN ToJson(Rec[d]) ELSE "eof">>)
          /\ FALSE
 =============================================================================
